@@ -83,6 +83,16 @@ TEMPLATES = ["{**%s}\n", "{'k': 1, **%s}\n", "[*%s]\n", "f(*%s)\n", "f(**%s)\n",
              "import %s\n", "class C(%s): pass\n", "def f(p=%s): pass\n", "def f(p: %s): pass\n", "match %s:\n    case 1: pass\n", "match v:\n    case %s: pass\n"]
 
 
+EVAL_FORMS = ["a,", "a, b", "a, b,", "(a,)", "a", "*a,", "*a, b", "a, *b", "a if b else c,", "lambda: a,", "lambda: (a,)", "a := b", "(a := b),", "a for a in b", "(a for a in b),",
+              "yield", "yield a,", "await a,", "not a,", "a or b,", "a, b if c else d", "a,\n", "a, # c", " a,", "a ,", "[a,]", "{a,}", "{a: b,}", "f(a,)", "a[b,]", "a[b, c]", "a[:, 1]",
+              "**a", "*a", "a = b", "a,, b", ",", ", a", "a, b, ", "$(ls),", "p'/x',", "f'{a},'", "f'{a}',", "1,", "'s',", "...,", "None,", "a.b,", "a[0],", "a(),", "-a,", "a ** b,"]
+
+
+def eval_matrix() -> list[str]:
+    """texts for mode="eval": one-element tuples without parentheses, trailing commas, starred items, ..."""
+    return list(EVAL_FORMS)
+
+
 def operand_matrix() -> list[str]:
     return [t.replace("%s", o) for t in TEMPLATES for o in OPERANDS]
 
@@ -181,6 +191,9 @@ def check(run: Run) -> None:
     # 6. which expression forms each restricted operand position admits (CPython decides)
     for t in operand_matrix():
         add(t, "exec", "operand-matrix")
+    for t in eval_matrix():
+        if not any(x in t for x in ("$", "p'")):
+            add(t, "eval", "eval-matrix")
     res = run_ops("c01", [{"src": c["src"], "mode": c["mode"]} for c in cases], limit=20.0)
     traces, invalid = [], 0
     for i, (c, r) in enumerate(zip(cases, res)):
